@@ -9,7 +9,7 @@ DEFAULT = {  # reverse-fix patches: which checks should notice
  'revert-F7':['c01','c02'],'revert-F8':['c15'],'revert-F10':['c10'],'revert-F11':['c03','c08'],'revert-F12':['c03','c08'],
  'revert-F13':['c15'],'revert-F14':['c16'],'revert-F15':['c16'],'revert-F16':['c15'],'revert-F17':['c05'],'revert-F18':['c05'],
 }
-EXTRA = {'C15-a':['c10'],'C04-a':['c10'],'C08-b':['c10'],'C01-b':['c02','c20'],'C02-a':['c01','c13'],'C20-b':['c01','c02'],'C06-b':['c20'],'C03-b':['c08'],'C12-b':['c01','c02'],'C14-b':['c20'],'C13-b':['c01'],'C15-b':['c10'],'hand-H10':['c01'],'hand-H15':['c02'],'hand-H22':['c09'],'hand-H20':['c14'],'C17-c':['c05'],'C09-c':['c08','c03'],'C14-c':['c20'],'C13-c':['c01','c02'],'C02-c':['c01'],'C10-c':['c08'],'C04-c':['c05'],'C12-c':['c10'],'C01-c':['c02','c13'],'C03-c':['c05','c16'],'C16-c':['c10'],'C01-d':['c12'],'C02-d':['c13','c01'],'C03-d':['c08'],'C05-d':['c17'],'C06-d':['c15'],'C07-d':['c06'],'C08-d':['c09'],'C09-d':['c08'],'C12-d':['c01'],'C13-d':['c02'],'C14-d':['c20'],'C15-d':['c13','c02'],'C16-d':['c03'],'C17-d':['c05'],'C19-d':['c10'],'C20-d':['c14'],'C01-e':['c02'],'C02-e':['c01','c13'],'C03-e':['c08'],'C06-e':['c01','c02'],'C08-e':['c16'],'C10-e':['c02'],'C13-e':['c01'],'C14-e':['c02','c01'],'C19-e':['c10'],'C16-e':['c03'],'C05-e':['c03','c10'],'C01-f':['c02','c13'],'C02-f':['c01','c15'],'C03-f':['c05'],'C04-f':['c03'],'C06-f':['c12','c01'],'C07-f':['c06'],'C08-f':['c16','c03'],'C10-f':['c08','c16'],'C13-f':['c01','c06'],'C14-f':['c20'],'C15-f':['c06'],'C16-f':['c06'],'C17-f':['c05','c04'],'C19-f':['c10'],'C20-f':['c01','c02'],'C01-g':['c02','c13'],'C02-g':['c01'],'C03-g':['c08','c09'],'C04-g':['c05'],'C05-g':['c03'],'C08-g':['c03'],'C09-g':['c08'],'C10-g':['c08'],'C12-g':['c01'],'C13-g':['c01'],'C14-g':['c20','c06'],'C15-g':['c08'],'C16-g':['c03'],'C17-g':['c05'],'C19-g':['c11'],'C06-g':['c20'],'C07-g':['c06'],'C01-h':['c06','c13'],'C02-h':['c01','c13'],'C03-h':['c08','c04'],'C04-h':['c05','c17'],'C05-h':['c03','c08'],'C06-h':['c07'],'C07-h':['c06'],'C08-h':['c03'],'C09-h':['c03','c08'],'C10-h':['c01'],'C11-h':['c10'],'C12-h':['c01','c06'],'C13-h':['c02','c01','c15'],'C14-h':['c13','c01'],'C15-h':['c16'],'C16-h':['c15'],'C17-h':['c05'],'C20-h':['c12','c06'],'C01-i':['c13','c02','c15'],'C02-i':['c01'],'C03-i':['c05'],'C05-i':['c08','c17'],'C07-i':['c06'],'C08-i':['c03'],'C09-i':['c03','c08','c10'],'C10-i':['c08','c15'],'C11-i':['c13','c01'],'C12-i':['c20','c01'],'C13-i':['c01','c02'],'C14-i':['c20'],'C15-i':['c16','c10'],'C20-i':['c14'],'C01-j':['c02','c13','c15'],'C02-j':['c01','c13'],'C03-j':['c05'],'C04-j':['c05','c17'],'C06-j':['c15'],'C07-j':['c06'],'C08-j':['c06','c03'],'C10-j':['c08'],'C12-j':['c01'],'C13-j':['c01','c02'],'C14-j':['c01','c20'],'C15-j':['c16'],'C17-j':['c05','c04'],'C20-j':['c01','c12']}
+EXTRA = {'C15-a':['c10'],'C04-a':['c10'],'C08-b':['c10'],'C01-b':['c02','c20'],'C02-a':['c01','c13'],'C20-b':['c01','c02'],'C06-b':['c20'],'C03-b':['c08'],'C12-b':['c01','c02'],'C14-b':['c20'],'C13-b':['c01'],'C15-b':['c10'],'hand-H10':['c01'],'hand-H15':['c02'],'hand-H22':['c09'],'hand-H20':['c14'],'C17-c':['c05'],'C09-c':['c08','c03'],'C14-c':['c20'],'C13-c':['c01','c02'],'C02-c':['c01'],'C10-c':['c08'],'C04-c':['c05'],'C12-c':['c10'],'C01-c':['c02','c13'],'C03-c':['c05','c16'],'C16-c':['c10'],'C01-d':['c12'],'C02-d':['c13','c01'],'C03-d':['c08'],'C05-d':['c17'],'C06-d':['c15'],'C07-d':['c06'],'C08-d':['c09'],'C09-d':['c08'],'C12-d':['c01'],'C13-d':['c02'],'C14-d':['c20'],'C15-d':['c13','c02'],'C16-d':['c03'],'C17-d':['c05'],'C19-d':['c10'],'C20-d':['c14'],'C01-e':['c02'],'C02-e':['c01','c13'],'C03-e':['c08'],'C06-e':['c01','c02'],'C08-e':['c16'],'C10-e':['c02'],'C13-e':['c01'],'C14-e':['c02','c01'],'C19-e':['c10'],'C16-e':['c03'],'C05-e':['c03','c10'],'C01-f':['c02','c13'],'C02-f':['c01','c15'],'C03-f':['c05'],'C04-f':['c03'],'C06-f':['c12','c01'],'C07-f':['c06'],'C08-f':['c16','c03'],'C10-f':['c08','c16'],'C13-f':['c01','c06'],'C14-f':['c20'],'C15-f':['c06'],'C16-f':['c06'],'C17-f':['c05','c04'],'C19-f':['c10'],'C20-f':['c01','c02'],'C01-g':['c02','c13'],'C02-g':['c01'],'C03-g':['c08','c09'],'C04-g':['c05'],'C05-g':['c03'],'C08-g':['c03'],'C09-g':['c08'],'C10-g':['c08'],'C12-g':['c01'],'C13-g':['c01'],'C14-g':['c20','c06'],'C15-g':['c08'],'C16-g':['c03'],'C17-g':['c05'],'C19-g':['c11'],'C06-g':['c20'],'C07-g':['c06'],'C01-h':['c06','c13'],'C02-h':['c01','c13'],'C03-h':['c08','c04'],'C04-h':['c05','c17'],'C05-h':['c03','c08'],'C06-h':['c07'],'C07-h':['c06'],'C08-h':['c03'],'C09-h':['c03','c08'],'C10-h':['c01'],'C11-h':['c10'],'C12-h':['c01','c06'],'C13-h':['c02','c01','c15'],'C14-h':['c13','c01'],'C15-h':['c16'],'C16-h':['c15'],'C17-h':['c05'],'C20-h':['c12','c06'],'C01-i':['c13','c02','c15'],'C02-i':['c01'],'C03-i':['c05'],'C05-i':['c08','c17'],'C07-i':['c06'],'C08-i':['c03'],'C09-i':['c03','c08','c10'],'C10-i':['c08','c15'],'C11-i':['c13','c01'],'C12-i':['c20','c01'],'C13-i':['c01','c02'],'C14-i':['c20'],'C15-i':['c16','c10'],'C20-i':['c14'],'C01-j':['c02','c13','c15'],'C02-j':['c01','c13'],'C03-j':['c05'],'C04-j':['c05','c17'],'C06-j':['c15'],'C07-j':['c06'],'C08-j':['c06','c03'],'C10-j':['c08'],'C12-j':['c01'],'C13-j':['c01','c02'],'C14-j':['c01','c20'],'C15-j':['c16'],'C17-j':['c05','c04'],'C20-j':['c01','c12'],'C01-k':['c02','c13'],'C02-k':['c01','c13'],'C03-k':['c08'],'C04-k':['c05'],'C05-k':['c08','c03'],'C07-k':['c06'],'C08-k':['c10','c03'],'C09-k':['c05','c03','c08'],'C10-k':['c04','c05'],'C12-k':['c01','c06'],'C13-k':['c01'],'C14-k':['c01','c02','c20'],'C15-k':['c01','c02','c13'],'C17-k':['c05','c08']}
 def sh(cmd, **kw): return subprocess.run(cmd, shell=True, capture_output=True, text=True, **kw)
 names = sys.argv[1:] or sorted(os.listdir(SEED))
 rows=[]
